@@ -136,7 +136,7 @@ def traced_run(nodes, data, ctx, *, detail="all", mode="file", scratch=None, pip
 
 
 # --------------------------------------------------------------------------- stream checks
-def check_single_run_stream(records: list, *, expect_sers: Optional[int], returned: bool) -> list:
+def check_single_run_stream(records: list, *, expect_sers: Optional[int], returned: bool, failing_node_has_ser: bool = True) -> list:
     """Lifecycle + cross-field checks for the records of ONE run. -> [(key, message)]"""
     issues = []
 
@@ -190,11 +190,14 @@ def check_single_run_stream(records: list, *, expect_sers: Optional[int], return
     for s in sers[:-1]:
         if s.get("status") != "succeeded":
             bad("non_final_ser_not_succeeded", f"status {s.get('status')}")
+    if not failing_node_has_ser and any(s.get("status") != "succeeded" for s in sers):
+        # the run was stopped by a fault BETWEEN nodes (the transport refused a publish): every node that ran did succeed
+        bad("ser_of_succeeded_node_not_succeeded", f"statuses {[s.get('status') for s in sers]}")
     if sers:
         last = sers[-1].get("status")
         if returned and last != "succeeded":
             bad("final_ser_status", f"run returned but last SER says {last}")
-        if not returned and expect_sers is not None and expect_sers > 0 and len(sers) == expect_sers and last != "error":
+        if not returned and failing_node_has_ser and expect_sers is not None and expect_sers > 0 and len(sers) == expect_sers and last != "error":
             bad("final_ser_status", f"run raised but the SER of the failing node says {last}")
     if ends:
         st = (ends[0].get("summary") or {}).get("status")
